@@ -165,6 +165,11 @@ def classify(script, i, v, fw):
     """canonical key = the input class (root cause first, then the violated clause and the event it was seen at)"""
     clause = v.split(",")[0] + ("," + v.split(",")[1] if v.split(",")[0] in ("hook-order", "observer-order") else "")
     ev = _kind(script[i])
+    # (0) a request API called from inside onLeave, right after the session ended and while the transport is still
+    # there: only `self._transport` is checked, the request goes out on a session that no longer exists and stays pending
+    if clause == "pending" and ev in ("m.goodbye", "m.abort") and \
+            any(c.split(",")[0] in ("call", "pub", "sub", "reg") for c in script[i].partition(";")[2].split("!")[0].split("+")[1:]):
+        return "api-call-from-onLeave-after-session-end:request-sent-and-left-pending"
     start = max([j for j in range(i + 1) if _kind(script[j]) == "open"] + [0])
     ends = _endings(script, start, i + 1)
     # (1) a handshake message (WELCOME / ABORT / failing CHALLENGE) that arrives after the join attempt or the
